@@ -364,7 +364,14 @@ func init() {
 	models["(*sync.Cond).Signal"] = bcast(true)
 
 	// ---------- Once ----------
-	models["(*sync.Once).Do"] = &Model{Takeover: func(cc *CallCtx) bool {
+	models["(*sync.Once).Do"] = &Model{TakeoverEnabled: func(cc *CallCtx, ph int) *Term {
+		o := cc.recvCell(0)
+		if o == nil {
+			return TS.True
+		}
+		cc.e.foot.read(o.Obj, cc.c.g)
+		return Or(Not(Eq(termOf(fieldCell(fieldCell(o, "done"), "v")), BV(0, 32))), lockerFree(fieldCell(o, "m")))
+	}, Takeover: func(cc *CallCtx) bool {
 		o := cc.recvCell(0)
 		if o == nil {
 			return false
